@@ -249,6 +249,115 @@ let v_c = {};
     Case { text, expected, label: format!("C19 seqsearch len={len} diff_at={first_diff} lens=({},{},{})", a.len(), b.len(), c.len()), pair_mode: false }
 }
 
+/// equal collections reached by different histories are `==` and hash equally: route A is a
+/// seeded history of insertions and removals (which leaves emptied buckets, overwritten entries
+/// and a particular insertion order behind), route B builds the same contents afresh
+pub fn collection_coherence_case(rng: &mut Prng) -> Case {
+    let is_set = rng.chance(1, 2);
+    let native = rng.chance(1, 2);
+    let e = *rng.pick(&[2i64, 3, 5, 12]);
+    let m = *rng.pick(&[1i64, 2, 3, 7, 1000]);
+    let cls = |k: i64| if native { k } else { k % e };
+    let mut text = String::new();
+    if !native {
+        text.push_str(&format!("fn v_h(v_k: int)->int{{ (v_k % {e}) % {m} }}\nfn v_e(v_a: int, v_b: int)->bool{{ v_a % {e} == v_b % {e} }}\n"));
+    }
+    let empty = match (is_set, native) {
+        (true, true) => "set<int>()".to_string(),
+        (true, false) => "set(v_h, v_e)".to_string(),
+        (false, true) => "mapping<int>().set(0, 0).discard(0)".to_string(),
+        (false, false) => "mapping(v_h, v_e).set(0, 0).discard(0)".to_string(),
+    };
+    // model: class -> value (value 0 for sets)
+    let mut model: Vec<(i64, i64)> = vec![];
+    let n_ops = 2 + rng.below(14) as usize;
+    let mut expr = empty.clone();
+    text.push_str(&format!("let v_a0 = {expr};\n"));
+    for i in 0..n_ops {
+        let k = rng.below(12) as i64;
+        let v = 1 + rng.below(5) as i64;
+        let present = model.iter().position(|(c, _)| *c == cls(k));
+        let op = rng.below(10);
+        expr = if is_set {
+            match (op, present) {
+                (0..=4, None) => {
+                    model.push((cls(k), 0));
+                    format!("v_a{i}.add({k})")
+                }
+                (0..=4, Some(_)) => format!("v_a{i}.add({k})"),
+                (5..=7, Some(p)) => {
+                    model.remove(p);
+                    if op == 5 { format!("v_a{i}.remove({k})") } else { format!("v_a{i}.discard({k})") }
+                }
+                (5..=7, None) => format!("v_a{i}.discard({k})"),
+                _ => {
+                    let k2 = rng.below(12) as i64;
+                    for kk in [k, k2] {
+                        if !model.iter().any(|(c, _)| *c == cls(kk)) {
+                            model.push((cls(kk), 0));
+                        }
+                    }
+                    format!("v_a{i}.update([{k}, {k2}])")
+                }
+            }
+        } else {
+            match (op, present) {
+                (0..=4, None) => {
+                    model.push((cls(k), v));
+                    format!("v_a{i}.set({k}, {v})")
+                }
+                (0..=4, Some(p)) => {
+                    model[p].1 = v;
+                    format!("v_a{i}.set({k}, {v})")
+                }
+                (5..=7, Some(p)) => {
+                    model.remove(p);
+                    if op == 5 { format!("v_a{i}.pop({k})") } else { format!("v_a{i}.discard({k})") }
+                }
+                (5..=7, None) => format!("v_a{i}.discard({k})"),
+                _ => {
+                    match present {
+                        Some(p) => model[p].1 = v,
+                        None => model.push((cls(k), v)),
+                    }
+                    format!("v_a{i}.update([({k}, {v})].to_generator())")
+                }
+            }
+        };
+        text.push_str(&format!("let v_a{} = {expr};\n", i + 1));
+    }
+    // route B: the same contents, fresh, in a seeded order, through a representative of each class
+    let mut fresh = model.clone();
+    rng.shuffle(&mut fresh);
+    text.push_str(&format!("let v_b0 = {empty};\n"));
+    for (j, (c, v)) in fresh.iter().enumerate() {
+        let rep = if native { *c } else { *c + e * (rng.below(3) as i64) };
+        let step = if is_set { format!("v_b{j}.add({rep})") } else { format!("v_b{j}.set({rep}, {v})") };
+        text.push_str(&format!("let v_b{} = {step};\n", j + 1));
+    }
+    let (a, b) = (format!("v_a{n_ops}"), format!("v_b{}", fresh.len()));
+    let body: Vec<(String, Expect)> = vec![
+        (format!("display(({a} == {b}).to_str())"), Expect::Exact("true".into())),
+        (format!("display(({b} == {a}).to_str())"), Expect::Exact("true".into())),
+        (format!("display(({a} != {b}).to_str())"), Expect::Exact("false".into())),
+        (format!("display((hash({a}) == hash({b})).to_str())"), Expect::Exact("true".into())),
+        (format!("display((hash({a}) >= 0 && hash({a}) < 2 ** 64).to_str())"), Expect::Exact("true".into())),
+        (format!("display({a}.len())"), Expect::Exact(model.len().to_string())),
+        // a sequence / tuple / optional of the two inherit it
+        (format!("display(([{a}] == [{b}]).to_str())"), Expect::Exact("true".into())),
+        (format!("display((hash(({a}, 1)) == hash(({b}, 1))).to_str())"), Expect::Exact("true".into())),
+        (format!("display((hash(some({a})) == hash(some({b}))).to_str())"), Expect::Exact("true".into())),
+    ];
+    text.push_str("fn main()->bool{\n");
+    let mut expected = vec![];
+    for (j, (ex, x)) in body.into_iter().enumerate() {
+        text.push_str(&format!("    let v_o{j} = {ex};\n"));
+        expected.push(x);
+    }
+    text.push_str("    true\n}\n");
+    Case { text, expected, label: format!("C19 collection-coherence {} {} e={e} m={m} ops={n_ops} size={}", if is_set { "set" } else { "mapping" }, if native { "native-hash" } else { "user-hash" }, model.len()), pair_mode: false }
+}
+
 fn check_output(c: &Case, out: &str) -> Option<String> {
     if c.pair_mode {
         let mut hit = false;
@@ -294,7 +403,7 @@ fn check_output(c: &Case, out: &str) -> Option<String> {
             Expect::OneOf(v) => v.iter().any(|s| s == l),
         };
         if !ok {
-            let name = if c.expected.len() == names.len() { names[i] } else { "observation" };
+            let name = if c.expected.len() == names.len() && c.label.contains(" K=") { names[i] } else { "observation" };
             return Some(format!("{name}: got {}, reference {:?}", l.chars().take(300).collect::<String>(), e));
         }
     }
@@ -394,8 +503,22 @@ pub fn make(spec: &JobSpec, ex: &mut Executor, out: &mut JobResult) -> Option<Bo
             let (points, _) = sweep::points(&base, &[Kind::Search], 64, spec.seed);
             Some(Box::new(FaultJob { base, points: points.into_iter().map(|p| p.scenario).collect(), case: c }))
         }
+        "collection-coherence" => {
+            let mut rng = Prng::new(spec.seed);
+            let count = spec.params.get("count").and_then(|v| v.as_u64()).unwrap_or(20) as usize;
+            let cases: Vec<Case> = (0..count).map(|_| collection_coherence_case(&mut rng)).collect();
+            Some(Box::new(CollJob { cases, fixed: None }))
+        }
         "coherence" => Some(Box::new(CoherenceJob)),
         "single" if spec.params.get("scenario").and_then(|s| s.get("label")).and_then(|l| l.as_str()) == Some("C19 coherence catalogue") => Some(Box::new(CoherenceJob)),
+        "single" if spec.params.get("scenario").and_then(|s| s.get("label")).and_then(|l| l.as_str()).map_or(false, |l| l.starts_with("C19 collection-coherence ")) => {
+            let sc: Scenario = serde_json::from_value(spec.params.get("scenario")?.clone()).ok()?;
+            // the expectations do not depend on the seeded history except for the size, which the label carries
+            let size = sc.label.split("size=").nth(1).and_then(|s| s.split_whitespace().next()).unwrap_or("0").to_string();
+            let t = || Expect::Exact("true".into());
+            let expected = vec![t(), t(), Expect::Exact("false".into()), t(), t(), Expect::Exact(size), t(), t(), t()];
+            Some(Box::new(CollJob { cases: vec![Case { text: sc.program.clone(), expected, label: sc.label.clone(), pair_mode: false }], fixed: Some(sc) }))
+        }
         "single" => {
             let sc: Scenario = serde_json::from_value(spec.params.get("scenario")?.clone()).ok()?;
             // rebuild the expectation from the label is not possible (inputs are seeded); the
@@ -503,6 +626,68 @@ impl Job for RefJob {
     }
 }
 
+/// equal collections reached by different histories (`collection_coherence_case`)
+struct CollJob {
+    cases: Vec<Case>,
+    /// replay: the recorded scenario, as it was
+    fixed: Option<Scenario>,
+}
+
+impl Job for CollJob {
+    fn len(&self) -> usize {
+        self.cases.len()
+    }
+    fn scenario(&mut self, i: usize) -> Scenario {
+        if let Some(sc) = &self.fixed {
+            return sc.clone();
+        }
+        let mut sc = Scenario::standard(&self.cases[i].text, Limits::calibration());
+        sc.label = self.cases[i].label.clone();
+        // the bucket layout of the compared collections is part of what is varied
+        sc.env.layout_seed = 1 + (i as u64 % 5);
+        sc
+    }
+    fn judge(&mut self, i: usize, sc: &Scenario, r: Exec, out: &mut JobResult) {
+        let c = &self.cases[i];
+        let r = match r {
+            Exec::Run(r) => r,
+            Exec::CompileError(m) => {
+                out.notes.push(format!("{}: does not compile: {}", c.label, m.chars().take(200).collect::<String>()));
+                out.count("case_compile_failures", 1);
+                return;
+            }
+            Exec::CompilePanic(p) => {
+                out.violate(violation(P, P, ("crash".into(), crash_signature(&p), p.clone()), sc));
+                return;
+            }
+        };
+        out.absorb_run(&r);
+        balance_and_crash(sc, &r, out);
+        if !matches!(r.main_outcome(), Outcome::Value(v) if v == "true") {
+            out.violate(violation(P, P, ("coherence".into(), "collection coherence program did not complete".into(), format!("{:?}", r.main_outcome())), sc));
+            return;
+        }
+        let text = String::from_utf8_lossy(&r.out).to_string();
+        let names = ["a == b", "b == a", "a != b", "hash(a) == hash(b)", "hash in range", "len", "[a] == [b]", "hash((a, 1)) == hash((b, 1))", "hash(some(a)) == hash(some(b))"];
+        let lines: Vec<&str> = text.lines().collect();
+        for (j, e) in c.expected.iter().enumerate() {
+            let got = lines.get(j).copied().unwrap_or("<missing>");
+            let ok = match e {
+                Expect::Exact(x) => x == got,
+                Expect::OneOf(xs) => xs.iter().any(|x| x == got),
+            };
+            if !ok {
+                let kind = c.label.split_whitespace().nth(2).unwrap_or("collection");
+                out.violate(violation(P, P, ("coherence".into(), format!("equal {kind}s reached by different histories: {} is not {:?}", names.get(j).unwrap_or(&"observation"), e), format!("got {got}")), sc));
+                break;
+            }
+        }
+        out.probe("collection_coherence_cases");
+        let parts: Vec<&str> = c.label.split_whitespace().collect();
+        out.tuples.insert(format!("coll|{}|{}|{}|{}", parts.get(2).unwrap_or(&""), parts.get(3).unwrap_or(&""), parts.get(4).unwrap_or(&""), parts.get(7).unwrap_or(&"")));
+    }
+}
+
 struct FaultJob {
     base: Base,
     points: Vec<Scenario>,
@@ -565,10 +750,10 @@ impl Job for FaultJob {
 const COHERENCE_TYPES: &[(&str, &str, &[&str], bool, bool)] = &[
     ("int", "int", &["0", "1", "0 - 1", "2 ** 64", "0 - 2 ** 64", "7", "2 ** 64 + 0", "2 ** 63"], true, true),
     ("float", "float", &["0.0", "-0.0", "1.5", "-1.5", "1e300", "-1e300", "0.1", "0.1 + 0.2 - 0.2", "0.0 * -1.0"], false, true),
-    ("str", "str", &["\"\"", "\"a\"", "\"b\"", "\"é\"", "\"ab\"", "\"a\" + \"b\"", "\"A\""], true, true),
+    ("str", "str", &["\"\"", "\"a\"", "\"b\"", "\"é\"", "\"ab\"", "\"a\" + \"b\"", "\"A\"", "\"añbc\".get(0)", "\"añbc\".substring(2, 3)", "\"éab\".substring(1, 3)", "\"xé\".substring(1, 2)"], true, true),
     ("bool", "bool", &["true", "false", "1 == 1"], true, true),
     ("tuple-int-float", "(int, float)", &["(1, 0.0)", "(1, -0.0)", "(0, 1.5)", "(1, 1.5)", "(2, -1.5)", "(1, 0.0 * -1.0)"], false, true),
-    ("tuple-int-str", "(int, str)", &["(1, \"a\")", "(1, \"b\")", "(0, \"z\")", "(1, \"a\" + \"\")", "(2, \"\")"], true, true),
+    ("tuple-int-str", "(int, str)", &["(1, \"a\")", "(1, \"b\")", "(0, \"z\")", "(1, \"a\" + \"\")", "(2, \"\")", "(1, \"añbc\".get(0))"], true, true),
     ("seq-float", "Sequence<float>", &["[0.0]", "[-0.0]", "cast<Sequence<float>>([])", "[1.5, 0.0]", "[1.5, -0.0]", "[1.5]"], false, true),
     ("seq-int", "Sequence<int>", &["[1, 2]", "[1, 2, 3]", "cast<Sequence<int>>([])", "[2]", "range(1, 3).to_array()", "range(1, 3)"], true, true),
     ("struct-diff-cmp", "V_D", &["V_D(1)", "V_D(5)", "V_D(2)", "V_D(5)", "V_D(0 - 4)", "V_D(100)"], true, true),
@@ -591,6 +776,9 @@ pub fn coherence_program() -> (String, usize) {
         }
         if *has_hash {
             rel.push_str(" && (!(v_a == v_b) || hash(v_a) == hash(v_b)) && hash(v_a) >= 0 && hash(v_a) < 2 ** 64");
+        }
+        if matches!(*name, "int" | "float" | "str") {
+            rel.push_str(" && format(v_a, \"\") == to_str(v_a)");
         }
         text.push_str(&format!("fn v_rel_{id}(v_a: {ty}, v_b: {ty})->bool{{ {rel} }}\n"));
         text.push_str(&format!("let v_pool_{id} = [{}];\n", pool.iter().map(|p| format!("cast<{ty}>({p})")).collect::<Vec<_>>().join(", ")));
@@ -617,6 +805,21 @@ pub fn coherence_program() -> (String, usize) {
             body.push(format!("display(\"{name} stable \" + v_stable_{id}().to_str())"));
         }
     }
+    // format: a width is a minimum width in characters - padded up to it, never truncated - whatever the
+    // fill, alignment, grouping, precision and mode are (lang/std_conventions.md#formatting)
+    text.push_str("let v_fw = [1, 5, 8, 12, 30];\nlet v_fa = [\"\", \"<\", \">\", \"^\", \"!<\", \"*^\", \"_>\"];\n");
+    text.push_str("let v_fstr = [\"\", \"a\", \"blash\", \"héllo\", \"日本\", \"日本語 text\", \"añbc\".substring(1, 3)];\n");
+    text.push_str("fn v_fbad_str(v_i: int)->bool{ let v_s = v_fstr[floor(v_i / 35)]; let v_w = v_fw[floor(v_i / 7) % 5]; let v_a = v_fa[v_i % 7]; format(v_s, v_a + v_w.to_str()).len() != max(v_w, v_s.len()) }\n");
+    text.push_str("fn v_fmt_str()->Sequence<int>{ range(245).filter(v_fbad_str).to_array() }\n");
+    body.push("display(\"format-width str \" + v_fmt_str().to_str())".to_string());
+    text.push_str("let v_fint = [0, 7, 0 - 12345678, 2 ** 70, 1000];\nlet v_fib = [\"\", \",\", \"_\"];\n");
+    text.push_str("fn v_fbad_int(v_i: int)->bool{ let v_x = v_fint[floor(v_i / 105)]; let v_b = v_fib[floor(v_i / 35) % 3]; let v_w = v_fw[floor(v_i / 7) % 5]; let v_a = v_fa[v_i % 7]; format(v_x, v_a + v_w.to_str() + v_b).len() != max(v_w, format(v_x, v_b).len()) }\n");
+    text.push_str("fn v_fmt_int()->Sequence<int>{ range(525).filter(v_fbad_int).to_array() }\n");
+    body.push("display(\"format-width int \" + v_fmt_int().to_str())".to_string());
+    text.push_str("let v_ffl = [0.0, 1.5, -1234567.891, 1e10, 0.000123];\nlet v_ffb = [\".2f\", \",.2f\", \"_.1f\", \".3e\", \",.1%\", \",\"];\n");
+    text.push_str("fn v_fbad_float(v_i: int)->bool{ let v_x = v_ffl[floor(v_i / 210)]; let v_b = v_ffb[floor(v_i / 35) % 6]; let v_w = v_fw[floor(v_i / 7) % 5]; let v_a = v_fa[v_i % 7]; format(v_x, v_a + v_w.to_str() + v_b).len() != max(v_w, format(v_x, v_b).len()) }\n");
+    text.push_str("fn v_fmt_float()->Sequence<int>{ range(1050).filter(v_fbad_float).to_array() }\n");
+    body.push("display(\"format-width float \" + v_fmt_float().to_str())".to_string());
     text.push_str("fn main()->bool{\n");
     for (j, b) in body.iter().enumerate() {
         text.push_str(&format!("    let v_o{j} = {b};\n"));
@@ -665,7 +868,11 @@ impl Job for CoherenceJob {
                 out.violate(violation(
                     P,
                     P,
-                    ("coherence".into(), format!("{ty}: eq / cmp / hash / relational operators disagree ({what})"), format!("{line} (indices are i*n+j over the type's value pool)")),
+                    (
+                        "coherence".into(),
+                        if ty == "format-width" { format!("format of {what}: the padded length is not max(width, unpadded length)") } else { format!("{ty}: eq / cmp / hash / relational operators disagree ({what})") },
+                        format!("{line} (indices are i*n+j over the type's value pool)"),
+                    ),
                     sc,
                 ));
             }
